@@ -19,16 +19,16 @@ import (
 //   s2r: chunk sequences chosen by the TLA+ reference writer -> bytes -> lal's ChunkComposer.
 
 type cMsg struct {
-	Csid  int     `json:"csid"`
-	Ts    [2]int  `json:"ts"`
-	Len   int     `json:"len"`
-	Type  int     `json:"type"`
-	Msid  int     `json:"msid"`
-	Newcs int     `json:"newcs"`
-	Subs  []cSub  `json:"subs"`
-	Prev  bool    `json:"prev,omitempty"` // w2s: pass the previous header of this csid
-	Cs    int     `json:"cs,omitempty"`   // w2s: chunk size for this message
-	Id    int     `json:"id"`             // payload code id
+	Csid  int    `json:"csid"`
+	Ts    [2]int `json:"ts"`
+	Len   int    `json:"len"`
+	Type  int    `json:"type"`
+	Msid  int    `json:"msid"`
+	Newcs int    `json:"newcs"`
+	Subs  []cSub `json:"subs"`
+	Prev  bool   `json:"prev,omitempty"` // w2s: pass the previous header of this csid
+	Cs    int    `json:"cs,omitempty"`   // w2s: chunk size for this message
+	Id    int    `json:"id"`             // payload code id
 }
 
 type cSub struct {
@@ -50,6 +50,11 @@ type cScenario struct {
 	Cs    int     `json:"cs"` // initial chunk size
 	Msgs  []cMsg  `json:"msgs"`
 	Steps []cStep `json:"steps"`
+	// kind "cmd": the signalling of a client session as rtmp.MessagePacker writes it (Set Chunk Size, connect,
+	// createStream, publish or play) for an application name of App bytes and a stream name of Name bytes
+	App  int  `json:"app"`
+	Name int  `json:"name"`
+	Pub  bool `json:"pub"`
 }
 
 type cOut struct {
@@ -158,6 +163,8 @@ func chunkDriver(env *Env) error {
 			chunkW2S(&sc, tw)
 		case "s2r":
 			chunkS2R(&sc, tw)
+		case "cmd":
+			chunkCmd(&sc, tw)
 		default:
 			return fmt.Errorf("bad kind %q", sc.Kind)
 		}
@@ -201,7 +208,11 @@ func chunkW2S(sc *cScenario, tw *TraceWriter) {
 	prev := map[int]*base.RtmpHeader{}
 	var wire []byte
 	q := &expQueue{}
-	type span struct{ from, to int; m *cMsg; payload []byte }
+	type span struct {
+		from, to int
+		m        *cMsg
+		payload  []byte
+	}
 	var spans []span
 	cs := sc.Cs
 	for i := range sc.Msgs {
@@ -257,6 +268,63 @@ func chunkW2S(sc *cScenario, tw *TraceWriter) {
 		pos += enc
 	}
 	outs, errs := runLalReader(wire, sc.Cs, q.check)
+	if outs == nil {
+		outs = []cOut{}
+	}
+	tw.Emit(M{"ev": "End", "leftover": leftover, "lalout": outs, "lalerr": errs})
+}
+
+// chunkCmd: lal's writer of signalling messages (MessagePacker: one chunk built in place, or message2Chunks for bodies
+// above the chunk size).  The bytes are read by the independent reader; the trace has the shape of a w2s scenario with
+// four messages, so that the specification judges chunk headers, message completion, the chunk size in force and the
+// agreement of lal's own reader; dataOk also says that the names arrived intact.
+func chunkCmd(sc *cScenario, tw *TraceWriter) {
+	name := func(n int, c byte) string {
+		b := make([]byte, n)
+		for i := range b {
+			b[i] = c + byte(i%23)
+		}
+		return string(b)
+	}
+	app, stream := name(sc.App, 'A'), name(sc.Name, 'a')
+	var wire []byte
+	pn := chunkProtect(func() { wire = rtmp.VerifPackCommands(app, "rtmp://h/"+app, stream, sc.Pub) })
+	tw.Emit(M{"ev": "reset", "sc": sc.Sc, "kind": "w2s", "cs": 128, "nmsgs": 4})
+	if pn != "" {
+		tw.Emit(M{"ev": "End", "leftover": -1, "lalout": []cOut{}, "lalerr": "panic in MessagePacker: " + pn})
+		return
+	}
+	msgs, _ := proj.ReadRtmpMessages(wire, 128)
+	var cms []*cMsg
+	q := &expQueue{}
+	for i, m := range msgs {
+		cm := &cMsg{Csid: m.Csid, Len: len(m.Payload), Type: m.Type, Msid: m.Msid, Subs: []cSub{}, Id: i + 1}
+		l := proj.Limbs(m.Ts)
+		cm.Ts = [2]int{l[0], l[1]}
+		if m.Type == 1 && len(m.Payload) >= 4 {
+			cm.Newcs = int(binary.BigEndian.Uint32(m.Payload))
+		}
+		cms = append(cms, cm)
+		q.push(m.Csid, m.Payload)
+	}
+	namesOk := len(msgs) == 4 && bytes.Contains(msgs[1].Payload, []byte(app)) && bytes.Contains(msgs[3].Payload, []byte(stream))
+	chunks, leftover := proj.SplitChunks(wire, 128)
+	k, got := 0, 0
+	for _, c := range chunks {
+		var m *cMsg
+		dataOk := false
+		if k < len(cms) {
+			m = cms[k]
+			p := msgs[k].Payload
+			dataOk = namesOk && c.Off+c.Data <= len(p) && bytes.Equal(c.Payload, p[c.Off:c.Off+c.Data])
+			got += c.Data
+			if got >= cms[k].Len {
+				k, got = k+1, 0
+			}
+		}
+		tw.Emit(M{"ev": "Chunk", "chunk": c, "msg": m, "dataOk": dataOk, "short": c.Short})
+	}
+	outs, errs := runLalReader(wire, 128, q.check)
 	if outs == nil {
 		outs = []cOut{}
 	}
